@@ -500,6 +500,26 @@ def preimagesOf : List COp → List Nat
   | .chain _ :: r => preimagesOf r
   | .preimage p :: r => p :: preimagesOf r
 
+/-! ### the `transaction_unconfirmed`-only rewind (the Confirm client that reports a re-org by naming the
+removed transactions, in ANY order, and never announces a lower best block) -/
+
+/-- the calls `transaction_unconfirmed(t)` for `t ∈ us`, in list order -/
+def unconfOps (us : List Nat) : List Op := us.map Op.txUnconfirmed
+
+/-- what the monitor-side state is after ALL removed transactions have been reported (Proofs/Unconfirm.lean,
+    `run_unconfOps`): the awaiting entries above the fork point are gone, the best height is NOT touched -/
+def unconfirmedTo (s : St) (h : Nat) : St := { s with awaiting := s.awaiting.filter (fun e => e.height ≤ h) }
+
+/-- the claims-layer history of the same calls -/
+def cUnconfOps (us : List Nat) : List COp := us.map (fun t => COp.chain (.txUnconfirmed t))
+
+/-- the claims that survive an unconfirm-only rewind of everything above `h` (Proofs/Unconfirm.lean,
+    `crun_cUnconfOps`): a claim is dropped iff some handler entry above the fork point sits at or below the
+    claim's creation height — `OnchainTxHandler::transaction_unconfirmed` rewinds to `height - 1` of an entry
+    the HANDLER has; a claim whose parent has no handler entry (the counterparty's commitment) lingers -/
+def unconfirmedClaims (claims : List Claim) (hAw : List HEntry) (h : Nat) : List Claim :=
+  claims.filter (fun c => hAw.all (fun e => decide (e.height ≤ h) || decide (c.creation < e.height)))
+
 /-- no `transaction_unconfirmed` in the history (the Confirm client that reports re-orgs only that
     way is covered by the correspondence, see Props/C11.lean) -/
 def NoUnconf : List COp → Prop
